@@ -137,7 +137,7 @@ func runC04(c *Ctx) {
 		z := 1
 		limit := 4000
 		if k == 0 {
-			z, limit = 2, c.Pick(250000, 1500000)
+			z, limit = 2, c.Pick(1000000, 3000000) // a miss has probability e^(-limit/65536)
 		}
 		ix, ok := findLeadingZeroChild(seed, z, limit)
 		if !ok {
@@ -269,7 +269,7 @@ func runC05(c *Ctx) {
 			seedZ := randBytes(r, 32)
 			zz, lim := 1, 6000
 			if k == 0 {
-				zz, lim = 2, 400000
+				zz, lim = 2, 1000000
 			}
 			if ix, ok := findLeadingZeroChild(seedZ, zz, lim); ok {
 				if mz, err := hdkeychain.NewMaster(seedZ, nets[k%len(nets)]); err == nil {
